@@ -45,7 +45,14 @@ def kani_playback(harness, cfg):
         r = kani_run.native_replay(harness, cfg)
     except Exception as e:
         return {"error": repr(e)}
-    return {"concrete_playback_tests": [r["test"]] if r.get("test") else [], "native_replay_failed": r.get("native_failed"),
+    native = r.get("native_failed")
+    note = None
+    if cfg["harnesses"].get(harness, {}).get("failure_in_stub"):
+        # the failing check lives in a #[kani::stub] replacement, which `cargo kani playback` does not apply:
+        # the native run cannot reproduce it, so its outcome says nothing (the concrete input values are still reported)
+        native = None
+        note = "failure is raised inside a kani::stub replacement; native playback does not apply stubs, concrete values reported only"
+    return {"concrete_playback_tests": [r["test"]] if r.get("test") else [], "native_replay_failed": native, "note": note,
             "native_output_tail": r.get("output", "")[-1500:]}
 
 
@@ -220,6 +227,10 @@ def decide(prop, tier, seed=0, use_cache=True, out=sys.stdout):
                 replays[v["harness"]] = pb
             entry["counterexample"] = pb
             entry["harness"] = v["harness"]
+            if pb and pb.get("native_replay_failed") is False and re.search(r"no_text|must_not_run|_stub\b", str(v.get("fn", "")) + " " + str(v.get("name", ""))):
+                # the failed check sits inside a kani::stub replacement (not applied by native playback): keep the violation
+                pb = dict(pb, native_replay_failed=None, note="failure raised inside a kani::stub replacement; native playback does not apply stubs")
+                entry["counterexample"] = pb
             if pb and pb.get("native_replay_failed") is False:
                 # CBMC's counterexample does not reproduce on the real code (spurious): not a violation
                 downgrade.append("kani harness %s: counterexample did not reproduce natively, discarded as spurious (%s)" % (v["harness"], v["name"]))
